@@ -25,7 +25,7 @@ ASSUMPTIONS = [
     "A8/A10 as for C10; automatic_soa=False",
 ]
 OUTSIDE = "the sqlite-backed autoimport index and the object-info database (C boundary); occurrence search and inferred attribute sets; universes larger than stated"
-BOUNDS = {"quick": {"steps": 2}, "thorough": {"steps": 3}}
+BOUNDS = {"quick": {"steps": 2}, "thorough": {"steps": "3 with warmed caches, 2 without"}}
 STUBS = ["os/shutil/open -> rsx.mfs model file system"]
 ROOT = "/rsx-mfs-root"
 FILES = ["a.py", "b.py", "d/c.py"]
@@ -38,7 +38,12 @@ def instances(tier):
     out = []
     for o0 in range(len(OPS)):
         for warm in range(2):
-            out.append(("fresh.%s.w%d" % (OPS[o0], warm), dict(first=o0, warm=warm, steps=BOUNDS[tier]["steps"])))
+            if tier == "thorough" and warm:
+                # three steps on the long-lived project with warmed caches, one instance per second operation
+                for o1 in range(len(OPS)):
+                    out.append(("fresh.%s.%s.w1" % (OPS[o0], OPS[o1]), dict(first=o0, second=o1, warm=1, steps=3)))
+            else:
+                out.append(("fresh.%s.w%d" % (OPS[o0], warm), dict(first=o0, warm=warm, steps=2)))
     return out
 
 
@@ -82,7 +87,7 @@ def make_run(p):
             if p["warm"]:
                 answers(proj)
             for step in range(p["steps"]):
-                code = p["first"] if step == 0 else choose("op%d" % step, len(OPS))
+                code = p["first"] if step == 0 else p["second"] if (step == 1 and p.get("second") is not None) else choose("op%d" % step, len(OPS))
                 op = OPS[code]
                 f = FILES[choose("t%d" % step, len(FILES))]
                 try:
